@@ -78,7 +78,7 @@ func isSHA256Variadic(fn *ssa.Function) bool {
 		if c.Call.Method.Name() == "Write" && len(c.Call.Args) == 1 {
 			// argument is an element of the parameter slice inside a loop over it
 			if ld, ok := strip(c.Call.Args[0]).(*ssa.UnOp); ok && ld.Op == token.MUL {
-				if ia, ok := ld.X.(*ssa.IndexAddr); ok && strip(ia.X) == ssa.Value(fn.Params[0]) {
+				if ia, ok := ld.X.(*ssa.IndexAddr); ok && strip(ia.X) == strip(fn.Params[0]) {
 					wrote = true
 				}
 			}
@@ -170,7 +170,7 @@ func checkC16(c *Ctx) {
 		rp := pos(ret.Pos())
 		// 1 handshake read ok
 		ok1 := hasFact(facts, func(f Fact) bool {
-			return f.Op == token.EQL && strip(f.X) == ssa.Value(readCall) && isNilConst(f.Y) && strip(readCall.Call.Args[1]) == ssa.Value(conn)
+			return f.Op == token.EQL && strip(f.X) == ssa.Value(readCall) && isNilConst(f.Y) && strip(readCall.Call.Args[1]) == strip(conn)
 		})
 		c.Check(ok1, G1, fname, "guard 1: handshake read from this connection succeeded", rp, "h.Read(conn) == nil", "a handshake that failed to parse (or was read from elsewhere) can authenticate")
 		// 2 binding
@@ -182,7 +182,7 @@ func checkC16(c *Ctx) {
 			}
 			a, b := strip(cl.Call.Args[0]), strip(cl.Call.Args[1])
 			for _, pr := range [][2]ssa.Value{{a, b}, {b, a}} {
-				if bc, ok := pr[0].(*ssa.Call); ok && staticCallee(&bc.Call) == binder && strip(bc.Call.Args[0]) == ssa.Value(conn) && isHField(pr[1], fBinding) {
+				if bc, ok := pr[0].(*ssa.Call); ok && staticCallee(&bc.Call) == binder && strip(bc.Call.Args[0]) == strip(conn) && isHField(pr[1], fBinding) {
 					bindCall = bc
 					return true
 				}
@@ -275,7 +275,7 @@ func checkC16(c *Ctx) {
 				return false
 			}
 			l, isL := tup.(*ssa.Lookup)
-			if isL && strip(l.X) == ssa.Value(p2id) {
+			if isL && strip(l.X) == strip(p2id) {
 				lk = l
 				return true
 			}
@@ -344,7 +344,7 @@ func checkC16(c *Ctx) {
 		// signature ← h.Signature loaded before the blanking store; blanking precedes Bytes()
 		var blank *ssa.Store
 		nSigStores := 0
-		for _, st := range storesToField([]*ssa.Function{auth}, fSig) {
+		for _, st := range storesToField(deepFuncs(auth), fSig) {
 			if fa := st.Addr.(*ssa.FieldAddr); strip(fa.X) == ssa.Value(h) {
 				nSigStores++
 				if isNilConst(st.Val) {
@@ -372,9 +372,9 @@ func checkC16(c *Ctx) {
 	// Bytes marshals the whole struct
 	okB := false
 	for _, cl := range callsInFn(bytesFn, "encoding/asn1", "Marshal") {
-		if strip(cl.Call.Args[0]) == ssa.Value(bytesFn.Params[0]) {
+		if strip(cl.Call.Args[0]) == strip(bytesFn.Params[0]) {
 			okB = true
-		} else if ld, ok := strip(cl.Call.Args[0]).(*ssa.UnOp); ok && ld.Op == token.MUL && strip(ld.X) == ssa.Value(bytesFn.Params[0]) {
+		} else if ld, ok := strip(cl.Call.Args[0]).(*ssa.UnOp); ok && ld.Op == token.MUL && strip(ld.X) == strip(bytesFn.Params[0]) {
 			okB = true
 		}
 	}
@@ -382,7 +382,7 @@ func checkC16(c *Ctx) {
 	// Read unmarshals into the receiver from the reader it was given
 	okR := false
 	for _, cl := range callsInFn(readFn, "encoding/asn1", "Unmarshal") {
-		if strip(cl.Call.Args[1]) == ssa.Value(readFn.Params[0]) {
+		if strip(cl.Call.Args[1]) == strip(readFn.Params[0]) {
 			okR = true
 		}
 	}
@@ -444,10 +444,10 @@ func checkC16(c *Ctx) {
 			}
 			c.Check(isExt(from, 1) && isExt(dom, 0), G2, FuncName(fn), "attributed id and domain", sp, "From/Domain ← results of authenticateConnection", "the emitted message is not attributed to the authenticated identity")
 			// the same conn is authenticated and read
-			okC := strip(ac.Call.Args[1]) == ssa.Value(handle.Params[1])
+			okC := strip(ac.Call.Args[1]) == strip(handle.Params[1])
 			for _, cl := range instrsOf(handle) {
 				if call, ok := cl.(*ssa.Call); ok {
-					if cal := staticCallee(&call.Call); cal != nil && cal.Name() == "readMsg" && strip(call.Call.Args[0]) != ssa.Value(handle.Params[1]) {
+					if cal := staticCallee(&call.Call); cal != nil && cal.Name() == "readMsg" && strip(call.Call.Args[0]) != strip(handle.Params[1]) {
 						okC = false
 					}
 				}
